@@ -1,5 +1,5 @@
 """C09 — integer roots, remainders, perfect powers: correspondence cases."""
-import os, sys, math
+import math, os, sys, math
 from gen import *
 
 PID = 'C09'
@@ -47,6 +47,19 @@ def cases(ctx, tier):
         for _ in range(4):
             sq(nonzero_top(rng, 2 * n - rng.getrandbits(1)), 'sqrt-rand')
             sq(nonzero_top(rng, 2 * n, 'top1') >> rng.randrange(0, 64), 'sqrt-rand')
+    # every value of the leading 9 bits of a normalised limb (the seed table of the one-limb square root is indexed by them), with the
+    # bits below all ones, all zeros, alternating, random; as a one-limb operand, as the top limb of two- and three-limb operands,
+    # and one bit position lower (odd bit count: the operand is shifted before the table is consulted); squares next to them
+    for t in range(0x100, 0x200):
+        for low in ((1 << 55) - 1, 0, 0x2AAAAAAAAAAAAA, rng.getrandbits(55), rng.getrandbits(55)):
+            x = (t << 55) | low
+            sq(x, 'sqrt-top9')
+            r = math.isqrt(x)
+            sq(r * r, 'sqrt-top9'); sq((r + 1) * (r + 1) - 1, 'sqrt-top9')
+        x = (t << 55) | rng.getrandbits(55)
+        sq(x >> 1, 'sqrt-top9-odd')
+        sq((x << 64) | rng.getrandbits(64), 'sqrt-top9-2limbs'); sq((x << 128) | rng.getrandbits(128), 'sqrt-top9-3limbs')
+        sq(((x << 64) | ((1 << 64) - 1)) >> 1, 'sqrt-top9-2limbs')
     # n-th roots
     for n in list(range(1, 12)) + [13, 16, 17, 31, 32, 33, 63, 64, 65, 100, 1000]:
         for k in list(range(0, 12)) + [(1 << 64) - 1, 1 << 64, (1 << 32) - 1, (1 << 128) - 1, nonzero_top(rng, 2), (1 << rng.randrange(1, 100)) - 1]:
@@ -92,3 +105,38 @@ def cases(ctx, tier):
         e = rng.choice([2, 3, 4, 5, 6, 9, 15])
         out.append(('mpz_perfect_power_p %s' % hx(rng.choice([1, -1]) * a ** e + rng.choice([0, 0, 1, -1])), 'perfpow-rand'))
     return out
+
+
+def search(ctx, failed):
+    """Directed search when an obligation of Properties_C09.v no longer checks.  The seed table of the one-limb square root: for
+    every entry that is not floor(sqrt(256 i)) operands whose leading byte (after the even normalisation shift) is i are sampled
+    densely - one limb, one bit lower, and as the top limb of two limbs - and the library's root and remainder are compared with
+    the definition."""
+    import vlib, random
+    names = [o['name'] for o in failed]
+    if not any('sqrt_seed' in n for n in names):
+        return None
+    sys.path.insert(0, os.path.join(os.path.dirname(os.path.dirname(os.path.abspath(__file__))), 'translator'))
+    import gen_consts
+    tab = gen_consts.parse_sqrt_tab()
+    badidx = [i for i in range(64, 256) if i - 64 >= len(tab) or tab[i - 64] != math.isqrt(256 * i)]
+    rng = random.Random('%s/C09/search' % ctx.seed)
+    for i in badidx[:4]:
+        xs = []
+        for _ in range(30000):
+            x = (i << 56) | rng.getrandbits(56)
+            k = rng.random()
+            if k < 0.15:
+                r = math.isqrt(x); x = r * r + rng.choice([0, -1, 1])
+            xs.append(x)
+            if k > 0.9: xs.append((x << 64) | rng.getrandbits(64))
+        lines = ['mpn_sqrtrem %x %s 0' % ((x.bit_length() + 63) // 64, hx(x)) for x in xs]
+        outs = vlib.run_robust(vlib.impl_cmd(ctx.impl), lines, timeout=600, died='CRASH')
+        for x, ln, o in zip(xs, lines, outs):
+            r = math.isqrt(x)
+            t = o.split()
+            ok = len(t) >= 3 and all(all(ch in '0123456789abcdef' for ch in v) for v in t[:3]) and int(t[1], 16) == r and int(t[2], 16) == x - r * r
+            if not ok:
+                return {'cases': [ln], 'implementation_output': o[:300], 'expected': '<limbs of the remainder> %x %x' % (r, x - r * r),
+                        'note': 'approx_tab[%d - 64] is %s, floor(sqrt(256 * %d)) is %d; operand with that leading byte' % (i, tab[i - 64] if i - 64 < len(tab) else None, i, math.isqrt(256 * i))}
+    return None
